@@ -746,7 +746,8 @@ class EAttribute(EStructuralFeature):
         self.iD = iD
         self.default_value = default_value
         self.defaultValueLiteral = defaultValueLiteral
-        if default_value is None and isinstance(eType, EDataType):
+        if default_value is None and isinstance(eType, EDataType) \
+                and not eType.type_as_factory:
             self.default_value = eType.default_value
 
     def get_default_value(self):
